@@ -146,6 +146,9 @@ def sweep_cases(tier, seed):
                 if mx == 2:
                     cfg["keepalive"] = [2, 3, 4]
                     cfg["no_delay"] = True
+                if mx == 1 and not ie:
+                    # the pooled objects are instances of a Client subclass that is falsy (it defines __len__)
+                    cfg["client_class"] = "falsy"
                 for oi, r in enumerate(OPS):
                     if tier == "quick" and (oi + (mx or 0) + idle) % 2:
                         continue
@@ -331,6 +334,15 @@ def check_reentrant(case, interruption=None):
             if id(s_) not in idle_socks and not (interruption and not s_.connected):
                 raise Violation(["reentrant", "open-socket-outside-pool"], "socket %d is open but belongs to no idle pooled connection after %s" % (s_.id, where))
         healthy = ran and out[0] == "ok" and all(r[0] == "ok" for r in sd.inner_results) and not fired and case["inner_op"] != "quit"
+        if ran and not fired and not interruption:
+            # each of the two calls got the answer to its own command
+            want_outer = {"set": True, "set_many": [], "get": b"text", "get_many": {"t": b"text", "n": b"10"}}[case["outer"]["op"]]
+            want_inner = {"get": b"text", "set": True, "get_many": {"t": b"text", "n": b"10"}, "quit": None}.get(case["inner_op"], Ellipsis)
+            if out != ("ok", want_outer):
+                raise Violation(["reentrant", "outer-result"], "the outer call returned %r, on its own it returns %r: %s" % (c01._short(out), want_outer, where))
+            for r_ in sd.inner_results:
+                if want_inner is not Ellipsis and r_ != ("ok", want_inner):
+                    raise Violation(["reentrant", "inner-result"], "the nested call returned %r, on its own it returns %r: %s" % (c01._short(r_), want_inner, where))
         if healthy and len(open_now) != 2 and case["warm"] != 0:
             raise Violation(["reentrant", "healthy-connection-dropped"], "both calls succeeded but %d socket(s) are open afterwards (2 expected: one per nesting level): %s" % (len(open_now), where))
         # afterwards: sequential calls reuse what is idle, nothing new is opened while an idle connection exists
